@@ -35,14 +35,14 @@ def run(run):
 
 
 def post_init_facets(run):
-    """Mineral.__post_init__ with symbolic n_grains: default fractions are n copies of 1/n (sum 1 by law CONST)."""
+    """Mineral.__post_init__ with symbolic n_grains, every branch (the band-width switch at 4632 grains included): default
+    fractions are n copies of 1/n (sum 1 by law CONST)."""
     M = real_module("pydrex.minerals")
     fn = "pydrex.minerals.Mineral.__post_init__"
     n = SymInt(z3.Int("n"))
-    c = E.Ctx([n.z >= 1])
-    E.Ctx.cur = c
-    try:
-        c.reset_path([])
+    seed = object()
+
+    def body():
         calls = []
 
         class RotStub:
@@ -70,33 +70,39 @@ def post_init_facets(run):
         g.update(np=Shim(), Rotation=RotStub, _log=LogStub())
         pi = E.rebind_function(M.Mineral.__post_init__, g)
         m = M.Mineral.__new__(M.Mineral)
-        seed = object()
         m.__dict__.update(phase=0, fabric=0, regime=4, n_grains=n, fractions_init=None, orientations_init=None, fractions=[], orientations=[], seed=seed, lband=None, uband=None)
-        try:
-            pi(m)
-        except E.UNSUPPORTED_EXC as e:
-            run.undecided("__post_init__", fn, f"unsupported construct: {e}")
+        pi(m)
+        return m, calls
+
+    try:
+        ex = E.explore(body, hyps=[n.z >= 1], max_paths=16)
+        run.paths += len(ex.paths)
+        if not ex.complete or not ex.paths or ex.unsupported:
+            run.undecided("__post_init__", fn, "exploration incomplete: " + "; ".join(ex.unsupported[:2]))
             return
-        except S.Infeasible:
-            run.undecided("__post_init__", fn, "path infeasible")
-            return
-        ok = len(m.fractions) == 1 and len(m.orientations) == 1 and "fractions_init" not in m.__dict__ and "orientations_init" not in m.__dict__
-        run.exact("__post_init__/one initial snapshot in each list, *_init attributes deleted", fn, ok, f"{len(m.fractions)}/{len(m.orientations)} snapshots")
-        f0 = m.fractions[0]
         G = LA.G
-        H = list(c.hyps) + list(c.pc) + [G >= 0, G < n.z]
-        for k, o in enumerate(c.oblig):
-            run.prove(f"__post_init__/safety.{o.name}#{k}", fn, list(c.hyps) + list(o.pc), o.goal, structural=True, kind="safety")
-        if isinstance(f0, LA.LArr):
-            v = S.zz(GL._at(f0, G))
-            run.prove("__post_init__/default fraction of every grain is 1/n > 0", fn, H, E.clear_formula(z3.And(v * z3.ToReal(n.z) == 1, v > 0)), structural=True)
-            run.exact("__post_init__/CONST: summand free of g", fn, LA.Sigma.free_of_g(v), "constant summand: SUM == n * (1/n)")
-            SUMf = z3.Real("SUMf0")
-            run.prove("__post_init__/default fractions sum to 1", fn, H + [SUMf == z3.ToReal(n.z) * v], E.clear_formula(SUMf == 1), structural=True, detail="law CONST: SUM == n*(1/n) == 1")
-        else:
-            run.undecided("__post_init__/default fractions", fn, "not a per-grain constant")
-        okr = len(calls) == 1 and isinstance(calls[0][0], SymInt) and z3.eq(calls[0][0].z, n.z) and calls[0][1] is seed
-        run.exact("__post_init__/random orientations drawn for n_grains with the mineral's seed", fn, okr, "Rotation.random(self.n_grains, random_state=self.seed)")
+        for pi_, p in enumerate(ex.paths):
+            tag = "__post_init__" if len(ex.paths) == 1 else f"__post_init__/path{pi_}"
+            if p.exc is not None:
+                run.prove(f"{tag}/does not raise", fn, list(ex.ctx.hyps) + list(p.pc), z3.BoolVal(False), structural=True, detail=f"{type(p.exc).__name__}: {p.exc}")
+                continue
+            m, calls = p.value
+            ok = len(m.fractions) == 1 and len(m.orientations) == 1 and "fractions_init" not in m.__dict__ and "orientations_init" not in m.__dict__
+            run.exact(f"{tag}/one initial snapshot in each list, *_init attributes deleted", fn, ok, f"{len(m.fractions)}/{len(m.orientations)} snapshots")
+            f0 = m.fractions[0]
+            H = list(ex.ctx.hyps) + list(p.pc) + [G >= 0, G < n.z]
+            for k, o in enumerate(p.oblig):
+                run.prove(f"{tag}/safety.{o.name}#{k}", fn, list(ex.ctx.hyps) + list(o.pc), o.goal, structural=True, kind="safety")
+            if isinstance(f0, LA.LArr):
+                v = S.zz(GL._at(f0, G))
+                run.prove(f"{tag}/default fraction of every grain is 1/n > 0", fn, H, E.clear_formula(z3.And(v * z3.ToReal(n.z) == 1, v > 0)), structural=True)
+                run.exact(f"{tag}/CONST: summand free of g", fn, LA.Sigma.free_of_g(v), "constant summand: SUM == n * (1/n)")
+                SUMf = z3.Real("SUMf0")
+                run.prove(f"{tag}/default fractions sum to 1", fn, H + [SUMf == z3.ToReal(n.z) * v], E.clear_formula(SUMf == 1), structural=True, detail="law CONST: SUM == n*(1/n) == 1")
+            else:
+                run.undecided(f"{tag}/default fractions", fn, "not a per-grain constant")
+            okr = len(calls) == 1 and isinstance(calls[0][0], SymInt) and z3.eq(calls[0][0].z, n.z) and calls[0][1] is seed
+            run.exact(f"{tag}/random orientations drawn for n_grains with the mineral's seed", fn, okr, "Rotation.random(self.n_grains, random_state=self.seed)")
     finally:
         E.Ctx.cur = None
 
